@@ -337,8 +337,11 @@ def run_numbers(name, m, sv, limit=120):
     # the same numbers with the run repeated as a suffix (formats with an optional all-zero suffix)
     for u in list(out)[:40]:
         for suf in ('000', '0000', '00'):
-            if e2._accepts(m, u + suf, {}) and u + suf not in out:
-                out.append(u + suf)
+            try:
+                if m.is_valid(u + suf) and u + suf not in out:
+                    out.append(u + suf)
+            except Exception:
+                pass
     return out
 
 
